@@ -299,7 +299,7 @@ func (p *Point) UnmarshalJSON(data []byte) error {
 // UnmarshalBSON will unmarshal GeoJSON Point geometry.
 func (p *Point) UnmarshalBSON(data []byte) error {
 	g := &Geometry{}
-	err := bson.Unmarshal(data, &g)
+	err := bson.Unmarshal(data, g)
 	if err != nil {
 		return err
 	}
@@ -351,7 +351,7 @@ func (mp *MultiPoint) UnmarshalJSON(data []byte) error {
 // UnmarshalBSON will unmarshal the GeoJSON MultiPoint geometry.
 func (mp *MultiPoint) UnmarshalBSON(data []byte) error {
 	g := &Geometry{}
-	err := bson.Unmarshal(data, &g)
+	err := bson.Unmarshal(data, g)
 	if err != nil {
 		return err
 	}
@@ -403,7 +403,7 @@ func (ls *LineString) UnmarshalJSON(data []byte) error {
 // UnmarshalBSON will unmarshal the GeoJSON MultiPoint geometry.
 func (ls *LineString) UnmarshalBSON(data []byte) error {
 	g := &Geometry{}
-	err := bson.Unmarshal(data, &g)
+	err := bson.Unmarshal(data, g)
 	if err != nil {
 		return err
 	}
@@ -455,7 +455,7 @@ func (mls *MultiLineString) UnmarshalJSON(data []byte) error {
 // UnmarshalBSON will unmarshal the GeoJSON MultiPoint geometry.
 func (mls *MultiLineString) UnmarshalBSON(data []byte) error {
 	g := &Geometry{}
-	err := bson.Unmarshal(data, &g)
+	err := bson.Unmarshal(data, g)
 	if err != nil {
 		return err
 	}
@@ -507,7 +507,7 @@ func (p *Polygon) UnmarshalJSON(data []byte) error {
 // UnmarshalBSON will unmarshal the GeoJSON Polygon geometry.
 func (p *Polygon) UnmarshalBSON(data []byte) error {
 	g := &Geometry{}
-	err := bson.Unmarshal(data, &g)
+	err := bson.Unmarshal(data, g)
 	if err != nil {
 		return err
 	}
@@ -559,7 +559,7 @@ func (mp *MultiPolygon) UnmarshalJSON(data []byte) error {
 // UnmarshalBSON will unmarshal the GeoJSON MultiPolygon geometry.
 func (mp *MultiPolygon) UnmarshalBSON(data []byte) error {
 	g := &Geometry{}
-	err := bson.Unmarshal(data, &g)
+	err := bson.Unmarshal(data, g)
 	if err != nil {
 		return err
 	}
